@@ -1,0 +1,33 @@
+//go:build verif
+
+package jobsync
+
+// Machine-checked contracts for /verif (gowp). Comment-only file: it adds no code.
+// Clause language: see /verif/DESIGN.md §2.2.
+
+// C04 (a copy helper reports an error whenever the destination is not a complete copy): the
+// lifecycle keeps every reported error. The list only grows, holds no nil, and Errors() returns
+// a list at least as long, so a reported failure makes the helper's result non-nil.
+//@ define NonNilErrs(l ref) bool = forall(k, 0 <= k && k < len(l.errors) ==> l.errors[k] != nil)
+
+// the cancel function of a context belongs to the standard library: it touches no repository state
+//@ functype context.CancelFunc()
+//@   modifies $none
+
+//@ func (*Lifecycle).Error [C04]
+//@   layers safety contract
+//@   requires lifecycle != nil
+//@   requires forall(k, 0 <= k && k < len(e) ==> e[k] != nil)
+//@   requires arr(lifecycle.errors) != arr(e) || len(e) == 0
+//@   modifies jobsync.Lifecycle.errors, E:error
+//@   ensures len(lifecycle.errors) == old(len(lifecycle.errors)) + len(e)
+//@   ensures old(NonNilErrs(lifecycle)) ==> NonNilErrs(lifecycle)
+//@   ensures forall(k, 0 <= k && k < old(len(lifecycle.errors)) ==> lifecycle.errors[k] == old(lifecycle.errors[k]))
+//@   ensures forall(k, 0 <= k && k < len(e) ==> lifecycle.errors[old(len(lifecycle.errors)) + k] == old(e[k]))
+
+//@ func (*Lifecycle).Errors [C04]
+//@   layers safety contract
+//@   requires lifecycle != nil && lifecycle.ctx != nil
+//@   requires NonNilErrs(lifecycle)
+//@   ensures len(result) >= old(len(lifecycle.errors))
+//@   ensures forall(k, 0 <= k && k < len(result) ==> result[k] != nil)
